@@ -104,6 +104,9 @@ def deep_inputs():
         out.append(('sizeof-%d' % n, 'int x = %s 1;' % ('sizeof' * 1 + ' sizeof' * n)))
         out.append(('comma-%d' % n, 'int f(void) { return (1%s); }' % (', 1' * n)))
         out.append(('attr-%d' % n, '%s int x;' % ('[[a]] ' * n)))
+        out.append(('complit-%d' % n, 'int f(void) { return %s1%s; }' % ('(int){ ' * n, ' }' * n)))
+        out.append(('typeof-%d' % n, '%sint%s x;' % ('typeof(' * n, ')' * n)))
+        out.append(('generic-%d' % n, 'int x = %s1%s;' % ('_Generic(0, int: ' * n, ')' * n)))
     for n in (1000, 100000, 1000000):
         out.append(('ident-%d' % n, 'int %s;' % ('a' * n)))
         out.append(('string-%d' % n, 'char s[] = "%s";' % ('x' * n)))
@@ -222,6 +225,28 @@ def run(tier):
         for b in range(nb):
             for ctx, fs, body in c10.instances(kind, text, rng):
                 inputs.append(('neg', c10.build('int base_only = 1;\n', ctx, fs, body).encode('latin-1'), 'stdin'))
+    # hand-written corner inputs: every directive cut off by end of file (no final new-line), zero-sized elements with designators
+    for dtext in ['#pragma x', '#pragma', '#pragma x \\', '#define A', '#define A 1', '#define F(a', '#define F(a) a', '#define F(a) #', '#undef A', '#undef', '#line 5', '#line 5 "f"', '# 5 "f" 1', '#', '# ',
+                  '#include <x>', '#if 1', '#error x', '#define F(a,', 'int x; #pragma y', '#pragma a\n#pragma b', '#define A /*', '#define A "', '#define A \'', '#line', '#define F( ', '#define F(...', '#define F(a, ...) __VA_ARGS__']:
+        for tail in ('', ' ', '\t', '\\', '\\\n', ' /* c */', ' // c'):
+            inputs.append(('eofdir', ('int before;\n' + dtext + tail).encode(), 'stdin'))
+            inputs.append(('eofdir', (dtext + tail).encode(), 'stdin'))
+            inputs.append(('eofdir', ('#define M(x) x\nint q = M(\n' + dtext + tail).encode(), 'stdin'))
+    for ztext in ['int a[][0] = { [1] = {} };', 'int a[][0] = { [0] = {} };', 'int a[3][0] = { [2] = {} };', 'int a[0][0] = {};', 'char a[][0][2] = { [5] = {} };', 'int a[][0] = { {}, {} };', 'struct { int z[0]; } a[] = { [2] = {} };',
+                  'struct { int z[0]; } a[] = { [2].z = {} };', 'int a[][0]; int *p = a[3];', 'void f(void) { int a[][0] = { [1] = {} }; }', 'void f(void) { int a[2][0]; a[1][0] = 1; }', 'int a[0][3] = { [0] = { 1 } };',
+                  'long s = sizeof(int [][0]);', 'int (*p)[0]; long d = sizeof *p; void f(void) { ++p; p - p; }', 'struct { int z[0]; } *q; void f(void) { q + 1; q - q; ++q; }', 'void f(int n) { int a[n][0]; a[0]; sizeof a; }']:
+        inputs.append(('zeroelem', ztext.encode(), 'stdin'))
+    # null bytes inside tokens; string initialisers overridden beyond their length; directives among the arguments of an invocation
+    for btext in [b'char *s = "a\0bcdefghijklmnopqrstuvwxyzabcdefghijklmnopqrstuvwxyz";', b"int c = 'a\0b';", b'int x\0y;', b'#define A "\0"\nchar *s = A;', b'/* \0 */ int x; // \0\n', b'char *s = L"\0\0\0\0wide";',
+                  b'#define S(x) #x\nchar *s = S(a\0b);', b'int x = 1\0;']:
+        inputs.append(('nul', btext, 'stdin'))
+    for otext in ['struct { char s[10]; } v = { .s = "ab", .s[7] = 1 };', 'char s[6] = { "ab", };', 'struct { char s[10]; int k; } v = { .s = "ab", .s[9] = 1, .k = 2 };', 'unsigned short w[9] = { [0] = 0 }; struct { unsigned short w[9]; } x = { .w = u"a", .w[8] = 7 };',
+                  'struct { unsigned u[5]; } y = { .u = U"", .u[4] = 1, .u[0] = 2 };', 'struct { char s[4]; } z = { .s = "abcd", .s[3] = 0 };', 'struct { char s[2][6]; } q = { .s[1] = "x", .s[1][5] = 1, .s[0][5] = 2 };']:
+        inputs.append(('strover', otext.encode(), 'stdin'))
+        inputs.append(('strover', ('void f(void) { %s }' % otext).encode(), 'stdin'))
+    for dtext in ['#undef F', '#define F(x,y) y x', '#define F 1', '#undef G', '#define G(a) F(a, a)', '#line 7', '#pragma x', '#', '#undef F\n#define F(a, b, c) c', '#if 1']:
+        inputs.append(('dirarg', ('#define F(x,y) x y\n#define G(a) F(a, 1)\nint a = F(\n%s\n1,2);\nint b = G(\n%s\n3);\n' % (dtext, dtext)).encode(), 'stdin'))
+        inputs.append(('dirarg', ('#define F(x,y) x y\nint a = F(1,\n%s\n2);\nint c = F(1, 2) + F\n%s\n(3, 4);\n' % (dtext, dtext)).encode(), 'stdin'))
     # witnesses of every repaired or recorded finding of any property (regression inputs for the crash fixes among them)
     for f in common.load_findings():
         wtxt = f.get('witness')
